@@ -7,7 +7,7 @@ from . import lib
 
 INJ = 'bardolph/lib/injection.py'
 
-c = contract(INJ, 'bind_then_provide', serves=['C17', 'C09', 'C10', 'C08'], name='lemma:bind(Class).to(I); provide(I); provide(I)', src='''
+c = contract(INJ, 'bind_then_provide', serves=['C17', 'C09', 'C10', 'C08', 'C11', 'C20'], name='lemma:bind(Class).to(I); provide(I); provide(I)', src='''
 def bind_then_provide(constructor, interface):
     bind(constructor).to(interface)
     a = provide(interface)
@@ -58,3 +58,51 @@ def _setup(b, case):
             'interface': b.cls('bardolph.lib.i_lib', 'Output')}
 c.setup(_setup)
 c.ensures('the-latest-binding', 'result is b')
+
+
+# ---- the production binding of the clock: every Machine gets its OWN clock (one script's stop, end or time line never
+#      reaches another script's waits)
+c = contract('bardolph/lib/clock.py', 'own_clock_each', serves=['C17', 'C09', 'C10', 'C11', 'C20', 'C08'], name='lemma:clock.configure(); provide(Clock) twice', src='''
+def own_clock_each():
+    from bardolph.lib import injection as _inj
+    configure()
+    a = _inj.provide(i_lib.Clock)
+    b = _inj.provide(i_lib.Clock)
+    return (a, b)
+''')
+def _setup(b, case):
+    lib.injection_reset(b)
+    return {}
+c.setup(_setup)
+c.ensures('two-machines-two-clocks', "result[0] is not result[1] and typename(result[0]) == 'Clock' and typename(result[1]) == 'Clock' "
+          "and result[0]._event is not result[1]._event")
+
+
+# ---- every job has its own compiler: loading the next script must not change the program of a job that is loaded and
+#      waits in the queue (the compiler hands out its code generator's own list and clears it in place at every parse)
+c = contract('bardolph/controller/script_job.py', 'two_loaded_jobs', serves=['C17', 'C20', 'C08'], name='lemma:job A loaded; job B loaded; A still holds its own program', src='''
+def two_loaded_jobs(t1, t2):
+    a = ScriptJob()
+    pa = a.load_string(t1)
+    b = ScriptJob()
+    pb = b.load_string(t2)
+    return (a.program, b.program, pa, pb)
+''')
+def _setup(b, case):
+    from pyvc.values import Opaque
+    mod = b.module('bardolph.controller.script_job')
+    made = b.ghost('parsers_made', PyList())
+    def parser_ctor(I_, a, k):
+        prog = PyList()
+        def parse(I2, o, a2, k2):
+            prog.items.clear()                  # CodeGen.clear(): in place
+            prog.items.append(a2[0])            # "the code of this text"
+            return True
+        p = Opaque('parser', {'parse': parse, 'get_program': lambda I2, o, a2, k2: prog, 'get_errors': lambda I2, o, a2, k2: ''})
+        made.items.append(p)
+        return p
+    mod.ns['Parser'] = Builtin('Parser', parser_ctor)
+    mod.ns['Machine'] = Builtin('Machine', lambda I_, a, k: Opaque('machine'))
+    return {'t1': b.sym('str', 'text1'), 't2': b.sym('str', 'text2')}
+c.setup(_setup)
+c.ensures('each-job-keeps-the-program-of-its-own-text', 'result[0] is not result[1] and len(result[0]) == 1 and result[0][0] == t1 and len(result[1]) == 1 and result[1][0] == t2')
